@@ -60,7 +60,9 @@ def random_grammar(rnd, nT=None, nN=None, max_alts=3, max_len=3, p_term=0.55, p_
     if rnd.random() < p_prec:
         pool = list(range(nT))
         rnd.shuffle(pool)
-        nlev = rnd.randint(1, min(3, nT))
+        if nT > 1 and rnd.random() < 0.5:
+            pool = pool[:rnd.randint(1, nT - 1)]      # some tokens have no precedence (and a %prec may name one of them)
+        nlev = rnd.randint(1, min(3, len(pool)))
         for lv in range(nlev):
             take = pool[lv::nlev] if lv < nlev else []
             if take:
@@ -148,6 +150,32 @@ def operator_grammar(rnd, nlev=None):
         u = rules.pop(len(ops))
         rules.insert(rnd.randint(0, len(rules)), u)           # %prec alternative anywhere in the `|` list
     return dict(terms=terms, nonterms=nonterms, precs=precs, rules=rules, start=0, operator=True)
+
+
+def dup_rule_grammar(rnd):
+    """A usable grammar in which one production is written twice (a pasted alternative), with productions after the copy."""
+    while True:
+        g = random_usable(rnd, nT=rnd.randint(2, 4), nN=rnd.randint(2, 3), p_shuffle=0.0)
+        if len(g['rules']) >= 3:
+            break
+    k = rnd.randrange(0, len(g['rules']) - 1)
+    j = rnd.randint(k + 1, len(g['rules']) - 1)
+    cp = dict(g['rules'][k]); cp['coef'] = list(cp['coef']); cp['rhs'] = list(cp['rhs'])
+    g['rules'].insert(j, cp)
+    return g
+
+
+def long_rule_grammar(rnd):
+    """One rule with 10-13 right-hand-side symbols whose action reads every $n (two-digit $n), next to a short one."""
+    k = rnd.randint(10, 13)
+    terms = [dict(name='w%d' % i, lit=None, tag=TAGS[i % 3], num=None, declared=True) for i in range(k)]
+    nonterms = [dict(name='S', tag='v1'), dict(name='U', tag='v2')]
+    mix = [('t', i) for i in range(k)]
+    mix[rnd.randrange(1, k - 1)] = ('n', 1)
+    rules = [dict(lhs=0, rhs=mix, prec=None, c=rnd.randint(0, 9), coef=[rnd.randint(1, 9) for _ in range(k)]),
+             dict(lhs=0, rhs=[('t', 0)], prec=None, c=3, coef=[2]),
+             dict(lhs=1, rhs=[('t', 1), ('t', 2)], prec=None, c=1, coef=[5, 7])]
+    return dict(terms=terms, nonterms=nonterms, precs=[], rules=rules, start=0)
 
 
 def layered_expr(rnd, nlev=None):
@@ -349,14 +377,20 @@ def render_rules(g, action=None):
             body = ' '.join(symname(g, s) for s in r['rhs'])
             pr = ' %%prec %s' % tname(g, r['prec']) if r['prec'] is not None else ''
             act = ' ' + action(idx, r) if action else ''
-            alts.append('%s%s%s' % (body, pr, act))
+            alts.append('%s%s%s%s%s' % (body, COMMENTS[(idx * 5 + 1) % len(COMMENTS)] if idx % 3 == 1 else '', pr, act,
+                                      COMMENTS[(idx * 3) % len(COMMENTS)] if idx % 4 == 2 else ''))
         lhs = g['nonterms'][g['rules'][run[0]]['lhs']]['name']
         if k % 3 == 2:
             for a in alts:
                 out.append('%s : %s ;\n' % (lhs, a))
         else:
             out.append('%s : %s ;\n' % (lhs, '\n  | '.join(alts)))
-    return ''.join(out)
+    return ''.join(out) + '/* end of the rules */\n'
+
+
+# comments as grammar authors write them; every one is complete, so the text between two of them is always grammar text
+COMMENTS = [' /* alt */', ' /** doc **/', ' /***/', ' // to the end of the line\n ', ' /**/', ' /* a * b ** c */', ' /****/', ' /* / */',
+            ' /** two\n * lines\n **/', ' /*** banner ***/']
 
 
 def render_plain(g, pkg='main'):
